@@ -303,6 +303,8 @@ RESOLVER_SEQS = [
     [op_single(), op_mst("kruskal", "carve"), op_multi(4)],
     [op_single(), op_mst("boruvka", "carve"), op_single()],
     [op_pflood(), op_single(), op_mst("kruskal", "carve")],
+    [op_single(), op_mst("kruskal", "basic"), op_multi(4)],       # known finding F14 (basic, then a router)
+    [op_single(), op_mst("boruvka", "basic"), op_single()],
 ]
 
 PLAIN_SEQS = [[op_single()], [op_multi(4)], [op_multi(0)], [op_multi(8)]]
